@@ -1,9 +1,11 @@
 """C15 - a run visits every time node once, in order, calling hooks in stack order.
 
 Workload: the real ``armi.operators.operator.Operator`` main loop on the smallest test reactor. The stock
-interface stack is replaced by 2-7 *recording interfaces* (subclasses of ``armi.interfaces.Interface``)
-with generated order / enabled / bolForce / reverseAtEOL / deferral / halting / return values / scripted
-tight-coupling convergence.  Cycle histories are generated as an *intended history* (steps, availability,
+interface stack is replaced by 2-7 *recording interfaces* (subclasses of ``armi.interfaces.Interface``, one
+level of further subclasses, functions partly drawn from a shared pool so that the rules for an already-taken
+function are reached) with generated order / enabled / bolForce / reverseAtEOL / deferral / halting / return
+values / scripted tight-coupling convergence on scalar, 1-D and 2-D coupling values (moves far from and right
+at the tolerance).  Cycle histories are generated as an *intended history* (steps, availability,
 power fractions per cycle) and then encoded in one of armi's input styles.
 
 Oracle: ``reference()`` below - an independent scheduler written from the property statement - produces
@@ -23,12 +25,24 @@ RULE = (
     "Every case is run through Operator.operate() and its hook trace compared with the reference scheduler; every (cycle,node) and "
     "every cumulative step of its history is checked against the naive enumeration. distinct = distinct normal form of the "
     "configuration without float values; trivial = one cycle, no burn steps, all interfaces plain. "
+    "Interface functions: in part of the configurations the interfaces draw their 'function' from a pool of 1-3 shared names and their class from "
+    "{RecIface, two unrelated subclasses}, so that addInterface's rules for an already-taken function are reached (more derived class replaces the attached one, "
+    "less derived one is left out, unrelated classes are refused with RuntimeError = counted as rejected, stack must be unchanged by the refused call; a second "
+    "interface of the SAME class and function may be left out or refused); dependency classes carry a function and are satisfied by an attached interface of "
+    "that name or of that function. Coupling values: python float, int, list, 1-D numpy array, list of lists (also ragged), 2-D numpy array; each coupled call "
+    "moves the value as scripted (unchanged / one entry by tolerance -+ 2**-20 / by exactly the tolerance / by twice the tolerance / two entries of a row / one entry "
+    "in each of two rows) and the reference scheduler decides convergence from the script label alone (documented norms: |d| for scalars, L2 for vectors, maximum of the "
+    "row-wise L2 norms for lists of lists; converged = below the tolerance); a move by exactly the tolerance is accepted under both readings and counted as unjudged when "
+    "only the 'converged' reading fits; 2-D numpy arrays only get single-entry moves (armi measures them with the matrix 2-norm; for one moved entry it equals the "
+    "documented norm); 6% of the non-scalar couplers update ONE container in place (the natural numpy idiom) instead of building a new one. "
     "Judged domain: availability factors in (0,1]; list settings of the right length; histories armi refuses are counted as rejected and not "
     "judged (simple input burnSteps=0 with nCycles>1 -> ValueError; detailed input 'burn steps: 0' -> ZeroDivisionError); deferral "
-    "(deferredInterfaceNames/deferredInterfacesCycle) is judged at BOC (not called before the deferral cycle, called from it on) and at BOL "
-    "while deferral is pending; calls of deferred interfaces at BOL once the deferral cycle is reached and at EveryNode/Coupled/EOC/EOL before "
-    "it are removed from both traces and counted as unjudged (deferred interfaces therefore carry no coupler and return falsy values); "
-    "exclusion lists are judged only through the entry points that accept them (BOL, EveryNode, EOC, EOL)."
+    "(deferredInterfaceNames/deferredInterfacesCycle) acts at BOL and BOC only and is judged everywhere it is documented: not called at BOL while deferral is "
+    "pending, not called at BOC before the deferral cycle, called at BOC from it on ('will begin normal operations on this cycle number'), and called at "
+    "EveryNode/Coupled/EOC/EOL throughout (armi's own test_getActiveInterfaces requires a deferred interface in the EveryNode set while deferral is pending; "
+    "getActiveInterfaces consults its cycle argument for BOC only); deferred interfaces carry couplers and arbitrary return values like any other. Only the BOL "
+    "call of a deferred interface when the deferral cycle is already reached at the start of the run stays unjudged (undocumented; counted). "
+    "Exclusion lists are judged only through the entry points that accept them (BOL, EveryNode, EOC, EOL)."
 )
 TOLERANCES = {"history_float_rel": 1e-9}
 EXHAUSTIVE = {"quick": False, "thorough": False}
@@ -41,6 +55,14 @@ FLOORS = {
         "run.halt": 1333, "run.deferred": 2333, "run.reverseAtEOL": 2666, "run.bolForce": 3333, "run.zero-step-cycle": 2000,
         "run.dependencies": 2000, "active.direct": 26666, "excluded.direct": 18666, "node.state": 66666, "arith.visit-order": 9333,
         "stack.order": 9333, "stack.duplicate": 1666,
+        # couplers by shape of the coupling value (moved = scripted steps that must NOT count as converged), threshold probes, norm laws
+        "coupler.scalar.moved": 11500, "coupler.1d.moved": 11000, "coupler.2d.moved": 7400, "coupler.2d-ndarray.moved": 3600,
+        "coupler.scalar.below": 3600, "coupler.scalar.above": 2800, "coupler.1d.below": 3600, "coupler.1d.above": 2200,
+        "coupler.2d.below": 1900, "coupler.2d.above": 1400, "coupler.1d.multi": 3400, "coupler.2d.multi": 1900, "coupler.2d.rows": 2500,
+        # deferred interfaces called (and judged) at EveryNode/Coupled/EOC/EOL before their cycle
+        "deferred.called-before-cycle": 18500,
+        # addInterface / dependency rules for an already-taken function
+        "stack.function-replaced": 380, "stack.function-ignored": 540, "stack.function-clash": 275, "stack.dependency-by-function": 2400,
     },
     "thorough": {
         "trace.compare": 140000, "trace.events": 8000000, "arith.node": 1300000, "arith.step": 900000, "arith.sum-law": 400000,
@@ -48,6 +70,11 @@ FLOORS = {
         "run.halt": 20000, "run.deferred": 35000, "run.reverseAtEOL": 40000, "run.bolForce": 50000, "run.zero-step-cycle": 30000,
         "run.dependencies": 30000, "active.direct": 400000, "excluded.direct": 280000, "node.state": 1000000, "arith.visit-order": 140000,
         "stack.order": 140000, "stack.duplicate": 25000,
+        "coupler.scalar.moved": 172500, "coupler.1d.moved": 165000, "coupler.2d.moved": 111000, "coupler.2d-ndarray.moved": 54000,
+        "coupler.scalar.below": 54000, "coupler.scalar.above": 42000, "coupler.1d.below": 54000, "coupler.1d.above": 33000,
+        "coupler.2d.below": 28500, "coupler.2d.above": 21000, "coupler.1d.multi": 51000, "coupler.2d.multi": 28500, "coupler.2d.rows": 37500,
+        "deferred.called-before-cycle": 277500,
+        "stack.function-replaced": 5700, "stack.function-ignored": 8100, "stack.function-clash": 4125, "stack.dependency-by-function": 36000,
     },
 }
 ASSUMPTIONS = [
@@ -57,12 +84,25 @@ ASSUMPTIONS = [
     "operator's cached cycle attributes reset to None); every 40th configuration uses a freshly constructed Operator as a cross-check",
     "restart is emulated the way armi's MainInterface does it: r.p.cycle/timeNode are set from startCycle/startNode before the run or by "
     "an interface during BOL",
+    "coupling values are small dyadic numbers and every scripted move is a dyadic step, so 'tolerance -+ 2**-20' is exact in floating point and the "
+    "norms armi computes (|d|, sqrt(d*d)) are exact for a single moved entry",
     "python logging is disabled in the shard process and armi's master code timer is emptied every 500 configurations (observational only)",
 ]
 
 HOOKS = ("BOL", "BOC", "EveryNode", "Coupled", "EOC", "EOL")
 FALSY = [None, False, 0, "", []]
 TRUTHY = [True, 1, "halt", [0], 2.5]
+POOL = ["fnP", "fnQ", "fnR"]      # shared interface 'function' names
+# What a scripted coupling step means for convergence (the generator's own spec; the tolerance is the coupler's):
+#   same  - value unchanged                                   -> converged
+#   below - one entry moves by tolerance - 2**-20              -> converged
+#   at    - one entry moves by exactly the tolerance           -> not fixed by the documentation ("allowable error" vs armi's eps < tolerance): both readings accepted
+#   above - one entry moves by tolerance + 2**-20              -> not converged
+#   far   - one entry moves by twice the tolerance             -> not converged
+#   multi - two entries of one row move by 0.75 tolerance each -> L2 norm 1.06 tolerance: not converged (doc/user/physics_coupling.rst: L2 norm of the difference)
+#   rows  - one entry in each of two rows moves by 0.75 tol    -> every row's L2 norm is 0.75 tolerance, their maximum too: converged (same document: infinity norm over rows)
+CONVERGED_LABELS = ("same", "below", "rows")
+SHAPE_CLASS = {"float": "scalar", "int": "scalar", "list": "1d", "array": "1d", "list2": "2d", "array2": "2d-ndarray"}
 
 
 def plan(tier, seed):
@@ -223,6 +263,39 @@ def gen_history(rng, kind):
     return H, S
 
 
+def step_of(label, tol, shape):
+    """Size of the move that a script label stands for. All values are dyadic so that value +- step is exact in floating point."""
+    if shape == "int":   # tolerance 2.0
+        return {"same": 0, "below": 1, "at": 2, "above": 3, "far": 5}[label]
+    d = 2.0 ** -20
+    return {"same": 0.0, "below": tol - d, "at": tol, "above": tol + d, "far": 2 * tol, "multi": 0.75 * tol, "rows": 0.75 * tol}[label]
+
+
+def gen_coupler(rng, s, boundaryRun, tolS):
+    """Coupler of one interface: the shape of the coupling value, the tolerance and a script of moves (labels, see CONVERGED_LABELS)."""
+    shape = rng.choice(["float", "float", "int", "list", "list", "array", "list2", "list2", "array2"])
+    via = "settings" if s["function"] and shape != "int" and rng.random() < 0.5 else "direct"
+    tol = tolS if via == "settings" else 2.0 if shape == "int" else rng.choice([0.5, 0.5, 0.25, 1.0])
+    dims = {"float": [], "int": [], "list": [rng.randint(1, 4)], "array": [rng.randint(1, 4)],
+            "list2": [rng.randint(1, 3), rng.randint(1, 3)], "array2": [rng.randint(1, 3), rng.randint(1, 3)]}[shape]
+    # a 2-D numpy array is a supported value type, but armi measures it with the matrix 2-norm instead of the documented row-wise norm; the two
+    # agree when a single entry moves by a clear margin, so such couplers only get 'same'/'far' steps (declared restriction)
+    fine = boundaryRun and shape != "array2"
+    conv = ["same"] + (["below", "below"] if fine else []) + (["rows"] if shape == "list2" and dims[0] >= 2 else [])
+    notc = ["far"] + (["above", "above"] if fine else []) + (["multi"] if shape in ("list", "array", "list2") and dims[-1] >= 2 else [])
+    p = rng.choice([0.3, 0.6, 0.9])
+    script = []
+    for _ in range(rng.randint(1, 7)):
+        if fine and rng.random() < 0.08:
+            script.append("at")
+        else:
+            script.append(rng.choice(conv) if rng.random() < p else rng.choice(notc))
+    # in-place update: the interface keeps ONE container, changes its entries and hands that same object out every time
+    inplace = shape in ("list", "array", "list2", "array2") and "at" not in script and rng.random() < 0.06
+    return {"script": script, "via": via, "shape": shape, "dims": dims, "tol": tol, "inplace": inplace,
+            "ragged": shape == "list2" and dims[0] >= 2 and rng.random() < 0.3}
+
+
 def gen_config(rng, kind, idx):
     H, S = gen_history(rng, kind)
     nC, bs = H["nCycles"], H["bs"]
@@ -242,9 +315,20 @@ def gen_config(rng, kind, idx):
     names = ["i%d" % k for k in range(n)]
     if tc or rng.random() < 0.3:
         names[rng.randrange(n)] = "database"
+    # interfaces of one 'function': drawn from a small shared pool so that addInterface's rules for equal functions are reached
+    pooled = kind != "arith" and rng.random() < (0.7 if kind == "stack" else 0.2)
+    pool = POOL[:rng.randint(1, len(POOL))]
+    boundaryRun = rng.random() < 0.4   # coupling values move by amounts just below / at / just above the tolerance
+    tolS = rng.choice([0.5, 0.5, 0.25, 1.0, 2.0])  # tolerance of couplers configured through tightCouplingSettings
     ifs = []
     for k, nm in enumerate(names):
-        s = {"name": nm, "function": rng.choice([None, "fn%d" % k]), "index": None if rng.random() < 0.6 else rng.randint(0, k),
+        fn = rng.choice([None, "fn%d" % k])
+        klass = "base"
+        if pooled and nm != "database":   # the 'database' stub must survive: tight coupling writes through it
+            if rng.random() < 0.6:
+                fn = rng.choice(pool)
+            klass = rng.choice(["base", "base", "base", "subA", "subA", "subB"])
+        s = {"name": nm, "function": fn, "klass": klass, "index": None if rng.random() < 0.6 else rng.randint(0, k),
              "enabled": rng.random() < 0.8, "bolForce": rng.random() < 0.3, "rev": rng.random() < 0.3,
              "flagsVia": rng.choice(["kwargs", "setters"]), "coupler": None, "ret": {}, "haltAt": [], "deps": [], "setsRestart": False}
         for h in HOOKS:
@@ -255,8 +339,7 @@ def gen_config(rng, kind, idx):
                 if h != "BOC":
                     s["ret"][h] = rng.choice(TRUTHY)
         if tc and rng.random() < 0.55:
-            bits = [rng.random() < rng.choice([0.3, 0.6, 0.9]) for _ in range(rng.randint(1, 7))]
-            s["coupler"] = {"script": bits, "via": "settings" if s["function"] and rng.random() < 0.5 else "direct"}
+            s["coupler"] = gen_coupler(rng, s, boundaryRun, tolS)
         ifs.append(s)
     if haltRun:
         for _ in range(rng.randint(1, 2)):
@@ -267,20 +350,19 @@ def gen_config(rng, kind, idx):
             s["haltValue"] = rng.choice(TRUTHY)
     cfg["tc"] = {"on": tc, "cap": rng.randint(1, 4), "skip": sorted(rng.sample(range(nC), rng.randint(0, min(2, nC)))) if tc and rng.random() < 0.4 else []}
     # ---- dependencies (added by armi disabled + forced at BOL)
-    if rng.random() < (0.6 if kind == "stack" else 0.15):
+    if rng.random() < (0.6 if kind == "stack" else 0.22):
         for s in rng.sample(ifs, rng.randint(1, min(2, n))):
             s["deps"] = rng.choice([["depA"], ["depB"], ["depA", "depB"], ["depC"], ["depB", "depA"]])
-    # ---- deferral (see module doc of judged domain): deferred interfaces carry no coupler and return falsy values
+    # the 'function' of each dependency class: a dependency is satisfied by an attached interface of that name OR of that function
+    fnsUsed = sorted({s["function"] for s in ifs if s["function"]})
+    cfg["depfn"] = {d: (rng.choice(fnsUsed + pool) if rng.random() < 0.45 and (fnsUsed or pooled) else rng.choice([None, "fnDep" + d[-1]])) for d in sorted(DEPS)}
+    # ---- deferral (see RULE for the judged domain)
     dn, dc = [], 0
     if rng.random() < 0.25:
         dc = rng.randint(0, nC)
         dn = [s["name"] for s in rng.sample(ifs, rng.randint(1, min(2, n)))]
         if rng.random() < 0.2:
             dn.append("notInStack")
-        for s in ifs:
-            if s["name"] in dn:
-                s["coupler"] = None
-                s["ret"] = {h: v for h, v in s["ret"].items() if not v}
     cfg["deferred"] = {"cycle": dc, "names": dn}
     # ---- restart emulation
     cfg["restartVia"] = "preset"
@@ -293,7 +375,7 @@ def gen_config(rng, kind, idx):
     S["tightCoupling"] = tc
     S["tightCouplingMaxNumIters"] = cfg["tc"]["cap"]
     S["cyclesSkipTightCouplingInteraction"] = [x if rng.random() < 0.7 else str(x) for x in cfg["tc"]["skip"]]
-    S["tightCouplingSettings"] = {s["function"]: {"parameter": "keff", "convergence": 0.5} for s in ifs if s["coupler"] and s["coupler"]["via"] == "settings"}
+    S["tightCouplingSettings"] = {s["function"]: {"parameter": "keff", "convergence": tolS} for s in ifs if s["coupler"] and s["coupler"]["via"] == "settings"}
     S["deferredInterfacesCycle"] = dc
     S["deferredInterfaceNames"] = list(dn)
     cfg["fresh"] = idx % 40 == 7
@@ -304,66 +386,99 @@ DEPS = {"depA": [], "depB": ["depC"], "depC": []}   # depB itself depends on dep
 
 
 # ============================================================================ the reference scheduler (oracle)
+def more_derived(a, b):
+    """class kind a is a proper subclass of class kind b (RecSubA and RecSubB both derive from RecIface, not from each other)"""
+    return b == "base" and a in ("subA", "subB")
+
+
 def build_stack(cfg):
-    """Stack as the statement describes construction: insert at index or append; then missing dependencies are appended
-    (disabled, forced at BOL), pass after pass, until nothing is missing."""
+    """Stack as the documentation describes construction (Operator.addInterface / getInterface / _processInterfaceDependencies):
+    insert at index or append; an interface whose function is already taken replaces the attached one when it is a more derived class,
+    is left out when the attached one is more derived, and is refused (RuntimeError) when the two classes are unrelated; then
+    missing dependencies - missing = no attached interface of that name and none of that function - are appended (disabled, forced at BOL),
+    pass after pass, until nothing is missing.  Returns (stack, info); info["clash"] is set when construction must be refused (the stack
+    is then the one before the refused call)."""
     stack = []
+    info = {"clash": None, "sameClass": 0, "replaced": 0, "ignored": 0, "depByFunction": 0, "depAdded": 0}
     for s in cfg["ifaces"]:
+        old = [x for x in stack if s["function"] is not None and x["function"] == s["function"]]
+        if old:
+            o = old[0]
+            if o["klass"] == s["klass"]:
+                info["sameClass"] += 1     # docstring: refused; implementation note: existing one "already more specific" - either way not attached
+                continue
+            if more_derived(o["klass"], s["klass"]):
+                info["ignored"] += 1
+                continue
+            if more_derived(s["klass"], o["klass"]):
+                info["replaced"] += 1
+                stack.remove(o)
+            else:
+                info["clash"] = [o["name"], s["name"], s["function"]]
+                return stack, info
         if s["index"] is None:
             stack.append(s)
         else:
             stack.insert(s["index"], s)
     while True:
-        have = {s["name"] for s in stack}
         new = []
         for s in list(stack):
             for d in s["deps"]:
-                if d not in have:
-                    have.add(d)
-                    new.append({"name": d, "function": None, "enabled": False, "bolForce": True, "rev": False, "coupler": None,
-                                "ret": {}, "haltAt": [], "deps": DEPS[d], "setsRestart": False, "isDep": True})
+                fn = cfg["depfn"][d]
+                if any(x["name"] == d for x in stack + new):
+                    continue
+                if fn is not None and any(x["function"] == fn for x in stack + new):
+                    info["depByFunction"] += 1
+                    continue
+                info["depAdded"] += 1
+                new.append({"name": d, "function": fn, "klass": "dep", "enabled": False, "bolForce": True, "rev": False, "coupler": None,
+                            "ret": {}, "haltAt": [], "deps": DEPS[d], "setsRestart": False, "isDep": True})
         if not new:
-            return stack
+            return stack, info
         stack += new
 
 
-def is_active(s, event, cycle, cfg, excluded=()):
+def is_active(s, event, cycle, cfg, excluded=(), deferAlso=()):
     on = s["enabled"] or (event == "BOL" and s["bolForce"])
     if s["name"] in excluded:
         on = False
     if s["name"] in cfg["deferred"]["names"]:
-        if event == "BOL" or (event == "BOC" and cycle < cfg["deferred"]["cycle"]):
+        if event == "BOL" or (event in ("BOC",) + tuple(deferAlso) and cycle < cfg["deferred"]["cycle"]):
             on = False
     return on
 
 
-def active_list(stack, event, cycle, cfg, excluded=()):
-    act = [s for s in stack if is_active(s, event, cycle, cfg, excluded)]
+def active_list(stack, event, cycle, cfg, excluded=(), deferAlso=()):
+    act = [s for s in stack if is_active(s, event, cycle, cfg, excluded, deferAlso)]
     if event == "EOL":
         act = [s for s in act if not s["rev"]] + [s for s in reversed(act) if s["rev"]]
     return act
 
 
-def reference(cfg, model_short_circuit=False):
-    """Expected hook trace. model_short_circuit is used ONLY to classify an observed deviation as the known
-    '_interactAll stops calling after a truthy return' mechanism; the verdict always comes from the plain schedule."""
-    stack = build_stack(cfg)
+def reference(cfg, model_short_circuit=False, eq_converged=False, model_alias=False, model_defer=()):
+    """Expected hook trace. model_short_circuit / model_alias are used ONLY to classify an observed deviation as a known mechanism
+    ('_interactAll stops calling after a truthy return'; 'a coupling value updated in place always looks converged'; model_defer = events other
+    than BOL/BOC at which a deferred interface is left out before its cycle); the verdict always comes from the plain schedule.  eq_converged is the second reading of a move by exactly the tolerance (see CONVERGED_LABELS)."""
+    stack, _ = build_stack(cfg)
     H = cfg["history"]
     sc, sn = cfg["start"]
     cur = [sc, sn] if cfg["restartVia"] == "preset" else [0, 0]
     out = []
     ncalls = {}
-    stats = {"iters": 0, "capped": 0, "exempt": 0, "halted": False, "nodes": 0, "cycles": 0, "lastCycle": None}
+    stats = {"iters": 0, "capped": 0, "exempt": 0, "halted": False, "nodes": 0, "cycles": 0, "lastCycle": None, "labels": {}, "deferredEarly": 0}
+    dn, dc = set(cfg["deferred"]["names"]), cfg["deferred"]["cycle"]
 
     def fire(event, args, cycle):
         truthy = False
         bits = []
-        for s in active_list(stack, event, cycle, cfg):
+        for s in active_list(stack, event, cycle, cfg, (), model_defer):
             if truthy and model_short_circuit:
                 if event == "Coupled" and s["coupler"]:
                     bits.append(True)  # not called: its value cannot have moved
                 continue
             out.append((s["name"], event, args, cur[0], cur[1]))
+            if s["name"] in dn and event not in ("BOL", "BOC") and cycle < dc:
+                stats["deferredEarly"] += 1
             v = s["ret"].get(event)
             if event == "BOC" and cycle in s["haltAt"]:
                 v = s["haltValue"]
@@ -373,7 +488,15 @@ def reference(cfg, model_short_circuit=False):
                 k = ncalls.get(s["name"], 0)
                 ncalls[s["name"]] = k + 1
                 sp = s["coupler"]["script"]
-                bits.append(sp[k % len(sp)])
+                lab = sp[k % len(sp)]
+                key = "%s.%s" % (SHAPE_CLASS[s["coupler"]["shape"]], lab)
+                stats["labels"][key] = stats["labels"].get(key, 0) + 1
+                if model_alias and s["coupler"]["inplace"]:
+                    bits.append(True)
+                elif lab == "at":
+                    bits.append(eq_converged)
+                else:
+                    bits.append(lab in CONVERGED_LABELS)
             truthy = truthy or bool(v)
         return truthy, all(bits)
 
@@ -408,20 +531,17 @@ def reference(cfg, model_short_circuit=False):
 
 
 def unjudged_filter(cfg, stats):
-    """(interface, event, cycle) -> True when deferral semantics are not fixed by the statement:
-    whether a deferred interface runs (a) at BOL when the deferral cycle is already reached at the start, (b) at events other
-    than BOL/BOC before its cycle.  Both readings agree for BOC, for BOL when deferral is still pending, and after the cycle."""
+    """(interface, event, cycle) -> True when deferral semantics are not fixed by the documentation: whether a deferred interface runs
+    at BOL when the deferral cycle is already reached at the start of the run ("will begin normal operations on this cycle number" says
+    nothing about beginning-of-life; armi never calls it).  Everything else is judged: not called at BOL while deferral is pending, not
+    called at BOC before the deferral cycle, called at BOC from it on, and called at EveryNode/Coupled/EOC/EOL throughout (deferral acts
+    at BOL and BOC only: armi's test_getActiveInterfaces requires a deferred interface in the EveryNode set while deferral is pending, and
+    getActiveInterfaces documents its cycle argument for the BOC decision only)."""
     dn, dc = set(cfg["deferred"]["names"]), cfg["deferred"]["cycle"]
     sc = cfg["start"][0]
 
     def unj(name, event, cycleSeen):
-        if name not in dn or not isinstance(cycleSeen, int):
-            return False
-        if event == "BOL":
-            return dc <= sc
-        if event == "BOC":
-            return False
-        return cycleSeen < dc
+        return name in dn and event == "BOL" and dc <= sc
 
     return unj
 
@@ -430,6 +550,49 @@ def unjudged_filter(cfg, stats):
 _LOG = []
 _STATE = {}
 _CTX = {}
+
+
+def initial_value(c):
+    """Start value of a coupling quantity of the given shape (entries are small multiples of 0.25)."""
+    import numpy as np
+
+    shape, dims = c["shape"], c["dims"]
+    if shape == "float":
+        return 1.25
+    if shape == "int":
+        return 3
+    if shape in ("list", "array"):
+        v = [0.25 * k for k in range(dims[0])]
+        return v if shape == "list" else np.array(v)
+    rows = [[0.25 * (k + r) for k in range(dims[1] + (1 if c["ragged"] and r == 1 else 0))] for r in range(dims[0])]
+    return rows if shape == "list2" else np.array(rows)
+
+
+def moved_value(c, val, lab, k, sign):
+    """The coupling value after one scripted move.  Unless the coupler is 'inplace', a NEW container is built (the old one is untouched)."""
+    import copy
+
+    shape, dims = c["shape"], c["dims"]
+    d = sign * step_of(lab, c["tol"], shape)
+    if shape in ("float", "int"):
+        return val + d
+    new = val if c["inplace"] else copy.deepcopy(val)
+    if shape in ("list", "array"):
+        if lab == "multi":
+            new[0] += d
+            new[1] += d
+        else:
+            new[k % dims[0]] += d
+        return new
+    if lab == "multi":
+        new[0][0] += d
+        new[0][1] += d
+    elif lab == "rows":
+        new[0][0] += d
+        new[1][0] += d
+    else:
+        new[k % dims[0]][(k // dims[0]) % dims[1]] += d
+    return new
 
 
 def make_classes():
@@ -441,15 +604,20 @@ def make_classes():
         name = None
 
         def __init__(self, r, cs, spec=None):
-            spec = spec or {"name": type(self).name, "function": None, "ret": {}, "haltAt": [], "coupler": None, "deps": DEPS[type(self).name], "setsRestart": False}
+            spec = spec or {"name": type(self).name, "function": type(self).function, "ret": {}, "haltAt": [], "coupler": None,
+                            "deps": DEPS[type(self).name], "setsRestart": False}
             self.name = spec["name"]
             self.function = spec["function"]
             self.spec = spec
             self._val = 0.0
             self._ncoupled = 0
+            self._sign = 1
             interfaces.Interface.__init__(self, r, cs)
-            if spec["coupler"] and spec["coupler"]["via"] == "direct":
-                self.coupler = interfaces.TightCoupler("keff", 0.5, cs["tightCouplingMaxNumIters"])
+            c = spec["coupler"]
+            if c:
+                self._val = initial_value(c)
+                if c["via"] == "direct":
+                    self.coupler = interfaces.TightCoupler("keff", c["tol"], cs["tightCouplingMaxNumIters"])
 
         def getDependencies(self, cs):  # called by the operator on instances
             return [_CTX["depClasses"][d] for d in self.spec["deps"]]
@@ -478,10 +646,12 @@ def make_classes():
 
         def interactCoupled(self, iteration):
             self._rec("Coupled", (iteration,))
-            if self.spec["coupler"]:
-                sp = self.spec["coupler"]["script"]
-                if not sp[self._ncoupled % len(sp)]:
-                    self._val += 1.0  # moves by more than the tolerance: not converged this iteration
+            c = self.spec["coupler"]
+            if c:
+                lab = c["script"][self._ncoupled % len(c["script"])]
+                if lab != "same":
+                    self._val = moved_value(c, self._val, lab, self._ncoupled, self._sign)
+                    self._sign = -self._sign
                 self._ncoupled += 1
             return self.spec["ret"].get("Coupled")
 
@@ -499,17 +669,21 @@ def make_classes():
         def writeDBEveryNode(self):  # only reached on the stub called "database"
             _CTX["dbwrites_total"] = _CTX.get("dbwrites_total", 0) + 1
 
-    depClasses = {}
-    for d in DEPS:
-        depClasses[d] = type("Dep_" + d, (RecIface,), {"name": d})
-    _CTX["depClasses"] = depClasses
+    class RecSubA(RecIface):
+        pass
+
+    class RecSubB(RecIface):
+        pass
+
+    _CTX["classes"] = {"base": RecIface, "subA": RecSubA, "subB": RecSubB}
+    _CTX["depClassCache"] = {}
 
     from armi.operators.operator import Operator
 
     class RecOperator(Operator):
         def createInterfaces(self):
             for s in _CTX["cfg"]["ifaces"]:
-                i = RecIface(self.r, self.cs, s)
+                i = _CTX["classes"][s["klass"]](self.r, self.cs, s)
                 if s["flagsVia"] == "kwargs":
                     self.addInterface(i, index=s["index"], reverseAtEOL=s["rev"], enabled=s["enabled"], bolForce=s["bolForce"])
                 else:
@@ -550,6 +724,12 @@ class Harness:
         _STATE.clear()
         _CTX["cfg"] = cfg
         _CTX["start"] = tuple(cfg["start"])
+        cache = _CTX["depClassCache"]
+        _CTX["depClasses"] = {}
+        for d, fn in cfg["depfn"].items():   # dependency classes carry their name and function as class attributes (what armi reads)
+            if (d, fn) not in cache:
+                cache[(d, fn)] = type("Dep_%s_%s" % (d, fn), (self.RecIface,), {"name": d, "function": fn})
+            _CTX["depClasses"][d] = cache[(d, fn)]
         self.apply_settings(cfg["settings"])
         if cfg["fresh"]:
             o = self.RecOperator(self.cs)
@@ -558,6 +738,7 @@ class Harness:
             o.removeAllInterfaces()
             for k in self.CYCLE_KEYS:
                 setattr(o, k, None)
+        self.last_o = o
         self.r.p.cycle = 0
         self.r.p.timeNode = 0
         o.initializeInterfaces(self.r)
@@ -580,7 +761,7 @@ def _intlike(x):
 def describe(cfg):
     H = cfg["history"]
     return {
-        "settings": cfg["settings"], "start": cfg["start"], "restartVia": cfg["restartVia"], "burnSteps": H["bs"],
+        "settings": cfg["settings"], "start": cfg["start"], "restartVia": cfg["restartVia"], "burnSteps": H["bs"], "dependencyFunctions": cfg["depfn"],
         "interfaces(add order)": [
             {k: v for k, v in s.items() if v not in (None, [], {}, False) or k in ("enabled",)} for s in cfg["ifaces"]
         ],
@@ -590,9 +771,10 @@ def describe(cfg):
 def signature(cfg):
     H = cfg["history"]
     return [H["style"], H["nCycles"], H["bs"], H["kinds"], cfg["start"], cfg["restartVia"], cfg["tc"], cfg["deferred"],
-            [[s["name"], s["function"] is not None, s["index"], s["enabled"], s["bolForce"], s["rev"], s["flagsVia"],
-              s["coupler"] and [s["coupler"]["script"], s["coupler"]["via"]], sorted((h, bool(v)) for h, v in s["ret"].items()),
-              sorted(s["haltAt"]), s["deps"], s["setsRestart"]] for s in cfg["ifaces"]]]
+            [[s["name"], s["function"] if s["function"] in POOL else s["function"] is not None, s["klass"], s["index"], s["enabled"], s["bolForce"], s["rev"], s["flagsVia"],
+              s["coupler"] and [s["coupler"][k] for k in ("script", "via", "shape", "dims", "tol", "inplace", "ragged")], sorted((h, bool(v)) for h, v in s["ret"].items()),
+              sorted(s["haltAt"]), s["deps"], s["setsRestart"]] for s in cfg["ifaces"]],
+            sorted((d, f) for d, f in cfg["depfn"].items() if f and any(d in s["deps"] for s in cfg["ifaces"]))]
 
 
 def nontrivial(cfg):
@@ -647,7 +829,12 @@ def check_history(rec, cs, cfg, o):
     for c in range(min(nC, len(gotSteps), len(gotLen), len(gotAf))):
         if gotSteps[c]:
             rec.hit("arith.sum-law")
-            if not close(sum(gotSteps[c]), gotAf[c] * gotLen[c]):
+            # independent side: the INTENDED availability and cycle length of the generated history (not armi's getters) ...
+            if not close(sum(gotSteps[c]), H["af"][c] * H["len"][c]):
+                rec.violation("history/%s/sum-of-steps-not-availability-x-length" % style,
+                              "cycle %d: sum(getStepLengths)=%r, intended availability*length=%r" % (c, sum(gotSteps[c]), H["af"][c] * H["len"][c]), w)
+            # ... and armi's three getters among themselves (consistency only, not counted as an independent oracle)
+            elif not close(sum(gotSteps[c]), gotAf[c] * gotLen[c]):
                 rec.violation("history/%s/sum-of-steps-not-availability-x-length" % style,
                               "cycle %d: sum(steps)=%r, availability*length=%r" % (c, sum(gotSteps[c]), gotAf[c] * gotLen[c]), w)
     # operator's view of the same history
@@ -749,27 +936,66 @@ def check_run(rec, H_, cfg, idx):
     cs = H_.cs
     w = describe(cfg)
     refusal = expected_refusal(cfg)
+    stack, sinfo = build_stack(cfg)
+    # ---- stack construction (createInterfaces -> addInterface, then dependency resolution)
     try:
         o = H_.prepare(cfg)
-        if refusal:
-            utils.getStepLengths(cs)
-            o.burnSteps
-            o.stepLengths
+    except RuntimeError as e:
+        if sinfo["clash"]:
+            rec.hit("stack.function-clash")
+            rec.reject("addInterface: unrelated interface class for a function that is already taken (RuntimeError)")
+            gotStack = [i.name for i in H_.last_o.getInterfaces()]
+            if gotStack != [s["name"] for s in stack]:
+                rec.violation("stack/changed-by-refused-add", "the refused addInterface left the stack %s, before the call it was %s" % (gotStack, [s["name"] for s in stack]),
+                              dict(w, clash=sinfo["clash"]))
+        elif sinfo["sameClass"]:
+            # addInterface's docstring: RuntimeError "if an interface of the same name or function is already attached"
+            rec.reject("addInterface: second interface of the same class and function refused (RuntimeError)")
+        else:
+            rec.crash("initializeInterfaces", e, w)
+        return
     except Exception as e:
         if refusal and isinstance(e, refusal[1]):
             rec.reject(refusal[0])
             return
         rec.crash("initializeInterfaces", e, w)
         return
-    if refusal:
-        rec.skip("history class '%s' was accepted this time; not judged" % refusal[0])
+    if sinfo["clash"]:
+        rec.hit("stack.function-clash")
+        rec.violation("stack/unrelated-function-clash-accepted",
+                      "addInterface accepted %r although %r of an unrelated class already holds function %r (stack now %s)" % (
+                          sinfo["clash"][1], sinfo["clash"][0], sinfo["clash"][2], [i.name for i in o.getInterfaces()]), dict(w, clash=sinfo["clash"]))
         return
     # stack order after construction
-    stack = build_stack(cfg)
     gotStack = [i.name for i in o.getInterfaces()]
     rec.hit("stack.order")
     if gotStack != [s["name"] for s in stack]:
-        rec.violation("stack/order-after-construction", "interface stack %s, expected %s" % (gotStack, [s["name"] for s in stack]), w)
+        why = "order-after-construction"
+        if sorted(gotStack) != sorted(s["name"] for s in stack):
+            why = "membership-after-construction"
+        rec.violation("stack/" + why, "interface stack %s, expected %s" % (gotStack, [s["name"] for s in stack]), dict(w, expectedStackInfo=sinfo))
+        return
+    for k in ("replaced", "ignored", "sameClass", "depByFunction"):
+        if sinfo[k]:
+            rec.hit("stack.function-" + k if k != "depByFunction" else "stack.dependency-by-function", sinfo[k])
+    fns = [i.function for i in o.getInterfaces() if i.function is not None]
+    if len(fns) != len(set(fns)):
+        rec.violation("stack/two-interfaces-of-one-function", "functions of the attached interfaces: %s" % fns, w)
+        return
+    # ---- histories armi refuses
+    try:
+        if refusal:
+            utils.getStepLengths(cs)
+            o.burnSteps
+            o.stepLengths
+    except Exception as e:
+        if isinstance(e, refusal[1]):
+            rec.reject(refusal[0])
+            return
+        rec.crash("history-refusal-probe", e, w)
+        return
+    if refusal:
+        rec.skip("history class '%s' was accepted this time; not judged" % refusal[0])
         return
     if any(s.get("isDep") for s in stack):
         rec.hit("run.dependencies")
@@ -788,24 +1014,49 @@ def check_run(rec, H_, cfg, idx):
         return
     got = [norm_rec(t) for t in _LOG]
     unj = unjudged_filter(cfg, stats)
-    nUnj = sum(1 for t in got if unj(t[0], t[1], t[3]))
+    nUnj = sum(1 for s in stack if unj(s["name"], "BOL", 0) and (s["enabled"] or s["bolForce"]))
     if nUnj:
-        rec.unjudged["calls of a deferred interface where the statement does not fix deferral (BOL with deferral cycle already reached; "
-                     "EveryNode/Coupled/EOC/EOL before the deferral cycle): removed from both traces"] += nUnj
+        rec.unjudged["BOL of a deferred interface when the deferral cycle is already reached at the start of the run: the documentation does not say "
+                     "whether it is called (armi does not call it); such calls are removed from both traces - interfaces concerned"] += nUnj
     gotJ = [t for t in got if not unj(t[0], t[1], t[3])]
     expJ = [t for t in exp if not unj(t[0], t[1], t[3])]
     rec.hit("trace.compare")
     rec.hit("trace.events", len(expJ))
+    hasAt = any(k.endswith(".at") for k in stats["labels"])
+    if gotJ != expJ and hasAt:
+        # second reading of "moved by exactly the tolerance": converged
+        expB, statsB = reference(cfg, eq_converged=True)
+        if gotJ == [t for t in expB if not unj(t[0], t[1], t[3])]:
+            rec.unjudged["runs that agree with the schedule only when a coupling value that moved by exactly the tolerance counts as converged (not fixed by the documentation)"] += 1
+            exp, stats, expJ = expB, statsB, gotJ
     if gotJ != expJ:
-        exp2, _ = reference(cfg, model_short_circuit=True)
-        exp2J = [t for t in exp2 if not unj(t[0], t[1], t[3])]
-        i, key = classify(expJ, gotJ)
-        if gotJ == exp2J:
-            key = "interactAll/short-circuit-after-truthy-return"
-            e = expJ[i] if i < len(expJ) else None
-            what = ("after an interface returned a truthy value from a hook, the interfaces behind it in the stack were not called at that event "
-                    "(first missing call: %s; whole trace equals the schedule in which _interactAll stops calling once a truthy value was returned)" % (e,))
-        else:
+        key = None
+        i, ckey = classify(expJ, gotJ)
+        e = expJ[i] if i < len(expJ) else None
+        if any(s["coupler"] and s["coupler"]["inplace"] for s in stack):
+            for eq in (False, True):
+                exp3, _ = reference(cfg, eq_converged=eq, model_alias=True)
+                if gotJ == [t for t in exp3 if not unj(t[0], t[1], t[3])]:
+                    key = "coupler/in-place-updated-value-always-converged"
+                    what = ("a coupler whose interface updates its coupling value (list / array) in place and returns the same object reported convergence although "
+                            "the value had moved by more than the tolerance, so the coupling iterations stopped early (first missing call: %s; whole trace equals the "
+                            "schedule in which such couplers always report converged)" % (e,))
+                    break
+        if key is None:
+            exp2, _ = reference(cfg, model_short_circuit=True)
+            exp2J = [t for t in exp2 if not unj(t[0], t[1], t[3])]
+            if gotJ == exp2J:
+                key = "interactAll/short-circuit-after-truthy-return"
+                what = ("after an interface returned a truthy value from a hook, the interfaces behind it in the stack were not called at that event "
+                        "(first missing call: %s; whole trace equals the schedule in which _interactAll stops calling once a truthy value was returned)" % (e,))
+        if key is None:
+            key = ckey
+            if stats["deferredEarly"]:
+                for also in (("EveryNode", "EOC", "EOL"), ("EveryNode", "Coupled", "EOC", "EOL")):
+                    exp4, _ = reference(cfg, model_defer=also)
+                    if gotJ == [t for t in exp4 if not unj(t[0], t[1], t[3])]:
+                        key = "deferral/applied-at-events-other-than-BOL-and-BOC"
+                        break
             what = "hook trace differs from the reference schedule at position %d: expected %s, observed %s" % (
                 i, expJ[i] if i < len(expJ) else "<end>", gotJ[i] if i < len(gotJ) else "<end>")
         rec.violation(key, what, dict(w, expected_around=expJ[max(0, i - 3):i + 4], observed_around=gotJ[max(0, i - 3):i + 4], position=i))
@@ -823,6 +1074,13 @@ def check_run(rec, H_, cfg, idx):
             rec.hit("run.halt")
         if cfg["deferred"]["names"]:
             rec.hit("run.deferred")
+        if stats["deferredEarly"]:
+            rec.hit("deferred.called-before-cycle", stats["deferredEarly"])
+        for k, v in stats["labels"].items():
+            rec.hit("coupler." + k, v)
+            sc_, lab = k.split(".")
+            if lab not in CONVERGED_LABELS and lab != "at":
+                rec.hit("coupler.%s.moved" % sc_, v)
         if sum(1 for s in stack if s["rev"] and s["enabled"]) >= 2:
             rec.hit("run.reverseAtEOL")
         if any(s["bolForce"] and not s["enabled"] for s in stack):
@@ -884,12 +1142,8 @@ def check_direct(rec, H_, o, cfg, stack, idx, w):
             rec.skip("getActiveInterfaces('%s', excludedInterfaceNames=non-empty): interactAll%s offers no exclusion; not judged" % (state, state))
             excl, exclArg = (), ()
 
-        def amb(name):  # deferral reading not fixed by the statement (see unjudged_filter)
-            if name not in dn:
-                return False
-            if state == "BOL":
-                return dc <= cfg["start"][0]
-            return state != "BOC" and cyc < dc
+        def amb(name):  # deferral reading not fixed by the documentation (see unjudged_filter): BOL with the deferral cycle already reached
+            return name in dn and state == "BOL" and dc <= cfg["start"][0]
 
         want = [s["name"] for s in active_list(stack, state, cyc, cfg, excl) if not amb(s["name"])]
         try:
@@ -947,9 +1201,9 @@ def check_direct(rec, H_, o, cfg, stack, idx, w):
     except ValueError:
         rec.reject("getActiveInterfaces unknown state")
     # a second interface of the same name is refused and leaves the stack alone
-    if idx % 5 == 0 and names:
+    if idx % 5 == 0 and stack:
         before = [i.name for i in o.getInterfaces()]
-        dup = dict(cfg["ifaces"][0], function=None, coupler=None)
+        dup = dict(stack[0], function=None, coupler=None)   # an interface that is attached (the first of the stack)
         try:
             o.addInterface(H_.RecIface(H_.r, H_.cs, dup))
             rec.violation("stack/duplicate-name-accepted", "addInterface accepted a second interface named %r" % dup["name"], w)
